@@ -60,6 +60,9 @@ type InstCfg struct {
 	// the leader flag is cleared) blocks until a release_gate step: a scheduler gate that lets a timer fire while
 	// Stop holds the election's lock.
 	GateStopMetric bool `json:"gate_stop_metric"`
+	// PromotePanic: the OnPromote callback panics (after it was recorded). DemoteCallsStop: the OnDemote callback calls Stop().
+	PromotePanic    bool `json:"promote_panic"`
+	DemoteCallsStop bool `json:"demote_calls_stop"`
 	// GateLog: the library goroutine that emits a log line with this message blocks there until a release_gate step
 	// (a scheduler gate at any logged step of the library; the first occurrence only)
 	GateLog string `json:"gate_log"`
